@@ -76,14 +76,14 @@ def exRetiredState : State :=
 
 theorem exRetired_reach : Reach 1 (some 5) exProg exRetiredState :=
   xrun?_reach (ls := [.owner none, .owner none, .owner none, .worker 0, .worker 0, .worker 0, .worker 0,
-                      .owner none, .owner none, .owner none, .owner none, .worker 0, .worker 0]) Reach.init (by decide)
+                      .owner none, .owner none, .owner none, .owner none, .owner none, .worker 0, .worker 0]) Reach.init (by decide)
 
 /-- the second update() reaps it: an expired, reaped worker — outside the pool and completed -/
 def exReapedState : State :=
   { exRetiredState with pool := [], owner := .idle [.start 2, .stop] }
 
 theorem exReaped_reach : Reach 1 (some 5) exProg exReapedState :=
-  xrun?_reach (ls := [.owner none, .owner none, .owner none]) exRetired_reach (by decide)
+  xrun?_reach (ls := [.owner none, .owner none, .owner none, .owner none]) exRetired_reach (by decide)
 
 example : ∃ s, Reach 1 (some 5) exProg s ∧ s.pool = [] ∧ s.ws = [⟨.finished, 0⟩] ∧ s.now = 10 ∧ s.destroyed = [1] :=
   ⟨exReapedState, exReaped_reach, rfl, rfl, rfl, rfl⟩
@@ -95,7 +95,7 @@ example : ∃ s, Reach 1 (some 5) [.start 1, .tick 10, .update, .start 2] s ∧ 
      timeout := some 5, now := 10, submitted := [1, 2], runs := [1], finished := [1], destroyed := [1], dropped := [],
      stopped := false },
    xrun?_reach (ls := [.owner none, .owner none, .owner none, .worker 0, .worker 0, .worker 0, .worker 0,
-                       .owner none, .owner none, .owner none, .owner none, .worker 0, .worker 0,
+                       .owner none, .owner none, .owner none, .owner none, .owner none, .worker 0, .worker 0,
                        .owner none, .owner none, .owner none]) Reach.init (by decide),
    rfl, rfl, rfl, by
      intro l
